@@ -91,6 +91,19 @@ def to_native(doc, ver, clsname, mode, depth=0):
             days, rem = divmod(t, tsref.US_PER_DAY)
             y, mo, dd = tsref.civil_from_days(days)
             secs, us = divmod(rem, 10 ** 6)
+            if mode.startswith("stixdt"):
+                # a STIXdatetime instance that carries the property's own precision tags but is NOT normalised
+                # (naive, or with more sub-second digits than an exact precision keeps): the library must still clean it
+                from stix2.utils import STIXdatetime
+                if d.get("constraint") == "exact" and d.get("precision") == "millisecond":
+                    us = us - us % 1000 + 456
+                elif d.get("constraint") == "exact" and d.get("precision") == "second":
+                    us = 123456
+                base = dt.datetime(y, mo, dd, secs // 3600, secs % 3600 // 60, secs % 60, us)
+                if mode == "stixdt-aware":
+                    base = base.replace(tzinfo=dt.timezone.utc)
+                out[k] = STIXdatetime(base, precision=d.get("precision", "any"), precision_constraint=d.get("constraint", "exact"))
+                continue
             val = dt.datetime(y, mo, dd, secs // 3600, secs % 3600 // 60, secs % 60, us)
             if mode == "aware":
                 val = val.replace(tzinfo=dt.timezone.utc)
@@ -116,6 +129,11 @@ def ensure_custom():
 
     @stix2.v21.CustomObject("x-verif-c01obj", props)
     class C01Obj(object):
+        pass
+
+    @stix2.v21.CustomObject("x-verif-c01extname", [("prop_str", P.StringProperty(required=True)), ("x_extra", P.IntegerProperty())],
+                            extension_name="extension-definition--a1b2c3d4-0000-4000-8000-00000000c002")
+    class C01ExtName(object):
         pass
 
     @stix2.v20.CustomObject("x-verif-c01obj20", [("prop_str", P.StringProperty(required=True)), ("prop_int", P.IntegerProperty()), ("prop_ts", P.TimestampProperty())])
@@ -298,7 +316,7 @@ custom_name = st.sampled_from(["x_foo", "x_bar", "a_custom", "zzz", "x_0", "foo_
 
 @st.composite
 def registered_custom_case(draw):
-    kind = draw(st.sampled_from(["obj21", "obj20", "sco", "marking", "ext", "toplevel-ext"]))
+    kind = draw(st.sampled_from(["obj21", "obj20", "sco", "marking", "ext", "toplevel-ext", "obj-extname"]))
     ts = lambda ver, prec="any": draw(G.timestamp(ver, {"precision": prec}, {"ts_max_digits": 6}))
     txt = lambda: draw(G.string_value({}))
     uid = lambda: str(draw(st.uuids(version=4)))
@@ -318,6 +336,13 @@ def registered_custom_case(draw):
             doc["prop_dict"] = draw(G.dictionary_value("2.1", {}))
         if draw(st.booleans()):
             doc["prop_bool"] = draw(st.booleans())
+        if draw(st.booleans()):
+            doc["labels"] = ["l"]
+    elif kind == "obj-extname":
+        doc = {"type": "x-verif-c01extname", "spec_version": "2.1", "id": "x-verif-c01extname--" + uid(), "created": "2020-01-01T00:00:00.000Z",
+               "modified": "2020-01-02T00:00:00.000Z", "prop_str": txt()}
+        if draw(st.booleans()):
+            doc["x_extra"] = draw(st.integers(0, 99))
         if draw(st.booleans()):
             doc["labels"] = ["l"]
     elif kind == "obj20":
@@ -388,7 +413,7 @@ def case_strategy(draw):
         case["toplevel_ext"] = True
         doc.pop("granular_markings", None)
     if case["source"] == "constructed":
-        case["native"] = draw(st.sampled_from(["naive", "aware", "text"]))
+        case["native"] = draw(st.sampled_from(["naive", "aware", "text", "stixdt-naive", "stixdt-aware"]))
         m = M.get(ver)
         cname = m.class_for_type(doc["type"]) if doc["type"] != "bundle" else "Bundle"
         droppable = [k for k in ("created", "modified", "id", "valid_from", "spec_version") if k in doc and k in m.props(cname)]
@@ -414,6 +439,8 @@ def classes_of(case):
         cl.append("custom:toplevel-ext" if case.get("toplevel_ext") else "custom:properties")
     if case.get("drop"):
         cl.append("defaults-from-clock")
+    if case.get("native"):
+        cl.append("native:" + case["native"])
     cl.extend(sorted(G.features(doc)))
     return cl
 
